@@ -457,7 +457,7 @@ pub fn gen_c15(rng: &mut Rng, _thorough: bool) -> LspTrace {
     if disk_active {
         add_disk_activity(rng, &mut events, &texts);
     }
-    let init_shape = if use_ws_folder { *rng.pick(&[0u8, 0, 7, 8, 9]) } else { *rng.pick(&[0u8, 0, 0, 1, 8]) };
+    let init_shape = if use_ws_folder { *rng.pick(&[0u8, 0, 7, 8, 9, 10, 11]) } else { *rng.pick(&[0u8, 0, 0, 1, 8, 10, 11]) };
     LspTrace { prop: "C15".into(), ws_files, use_ws_folder, events, hash_seeds: (0..3).map(|_| rng.next()).collect(), dir_seed: rng.next(), mode: "random".into(), init_shape, ws_extras: vec![], ranged_edits: rng.chance(1, 2) }
 }
 
@@ -1512,17 +1512,20 @@ fn ends_in_invalid_blank(text: &str) -> bool {
     strip_trailing_layout(text).ends_with(['\u{b}', '\r', '\u{a0}', '\u{3000}', '\u{1}'])
 }
 
-fn fresh_server_tokens(uri: &str, text: &str, seed: u64) -> Result<Value, String> {
+fn fresh_server_tokens(uri: &str, text: &str, seed: u64, init_shape: u8) -> Result<Value, String> {
     crate::seam::reset_sim_tmp();
-    match crate::seam::run_forked(|| fresh_server_tokens_in_this_process(uri, text, seed)) {
+    match crate::seam::run_forked(|| fresh_server_tokens_in_this_process(uri, text, seed, init_shape)) {
         Ok(r) => r,
         Err(why) => Err(format!("fresh server process died: {why}")),
     }
 }
 
-fn fresh_server_tokens_in_this_process(uri: &str, text: &str, seed: u64) -> Result<Value, String> {
+fn fresh_server_tokens_in_this_process(uri: &str, text: &str, seed: u64, init_shape: u8) -> Result<Value, String> {
     let hooks = SimHooks::new(root(), seed, vec![]);
-    let mut s = Session::start(seed, hooks, None);
+    // the same client (its capabilities may shape the legend), but no workspace folder: the answer is
+    // about the text of the document
+    let shape = if matches!(init_shape, 8 | 10 | 11) { init_shape } else { 0 };
+    let mut s = Session::start_shaped(seed, hooks, None, shape);
     s.deliver(None, "didOpen", event_message(&Event::Open { uri: uri.to_string(), version: 1, text: text.to_string() }, 0).unwrap());
     s.deliver(None, "target", event_message(&Event::SemTok { uri: uri.to_string(), id_kind: 0 }, 0).unwrap());
     let inc = s.shutdown_and_exit();
@@ -1660,7 +1663,7 @@ fn oracle_c15(t: &LspTrace, h: &History, stats: &mut Stats) -> Vec<Violation> {
                 }
             }
             // history independence: a fresh server that was only sent didOpen(u, text) answers the same
-            match fresh_server_tokens(sym, &text, mix(&[trace_hash, ii as u64, si as u64])) {
+            match fresh_server_tokens(sym, &text, mix(&[trace_hash, ii as u64, si as u64]), t.init_shape) {
                 Ok(fresh) => {
                     stats.count("c15.fresh_server_comparisons");
                     // only the token data is a function of the text (a result id may well count edits)
